@@ -33,6 +33,9 @@ theorem resolveHead_independent {Item : Type} (B : List Nat) (fx : Fixed Item) (
   | methodVar =>
     simp [Head.escapesIn] at hc
     simp [resolveHead, hc]
+  | assoc y n =>
+    simp only [Head.escapesIn, Head.escapes, Bool.not_eq_false'] at hc
+    simp [resolveHead, hc]
   | binder n => rfl
 
 /-- **For every pair of caller scopes** that agree on what `derive_more` names: a closed template
@@ -100,6 +103,15 @@ example : escaping [] [.g .paren [.v], .p 46 true, .v, .g .paren []] = [.methodV
 example : closed [] ⟨0, 0, [.i 23, .p 46 true, .v, .p 46 true, .v, .g .paren [.i 1008, .p 46 true, .v]]⟩ = true := by decide
 -- `. clone ( )` is a trait method that needs `Clone` in scope
 example : escaping [] [.v, .p 46 false, .i 1012, .g .paren []] = [.method 1012] := by decide
+-- `derive_more :: __private :: Conv :: < .. > :: default ( )`: not an inherent function of `Conv` - escapes;
+-- `.. TryUnwrapError :: < _ > :: new ( .. )` does not
+example : escaping [] [.i idDeriveMore, .p 58 true, .p 58 false, .i 1005, .p 58 true, .p 58 false, .p 60 false, .v, .p 62 true,
+    .p 58 true, .p 58 false, .i 1000, .g .paren []] = [.assoc 1005 1000] := by decide
+example : escaping [] [.i idDeriveMore, .p 58 true, .p 58 false, .i 1005, .p 58 true, .p 58 false, .p 60 false, .v, .p 62 true,
+    .p 58 true, .p 58 false, .i idNew, .g .paren []] = [] := by decide
+-- `< #t as derive_more :: core :: default :: Default > :: default ( )` is a qualified path: fine
+example : escaping [] [.p 60 false, .v, .i 0, .i idDeriveMore, .p 58 true, .p 58 false, .i 1005, .p 62 true, .p 58 true, .p 58 false,
+    .i 1000, .g .paren []] = [] := by decide
 example : 200 < Dm.Gen.templates.length := by decide +kernel
 
 end Dm.Props.C15
